@@ -3,13 +3,14 @@
    proved in Proofs/C09_split.v, Proofs/C09_join.v, Proofs/C09_joinsplit.v,
    Proofs/C09_more.v or Common/PyList.v and followed by Print Assumptions.
 
-   [join_fixed] is the join of dclab after fixes_proposed/C09-join-sort-and-
-   prune.diff, [join_orig] the code before it (kept executable so that its
-   defects stay replayable witnesses). *)
+   [join_fixed] is the join of /repo (numeric sort key bb0c30e, pruning over a
+   copy 72ba70a).  The theorems named C09_prune_* are about Python's list
+   semantics (Common/PyList.v, tied to the interpreter by the pysem cases):
+   they document why the loop had to iterate over a copy. *)
 From Coq Require Import ZArith List Bool Permutation Sorted.
 From Verif Require Import Common.ListIdx Common.PyList Model.C09.
 From Verif Require Import Proofs.C09_split Proofs.C09_join Proofs.C09_joinsplit
-  Proofs.C09_more.
+  Proofs.C09_more Proofs.C09_trace.
 Import ListNotations.
 Open Scope Z_scope.
 
@@ -28,40 +29,71 @@ Theorem C09_split_partition :
 Proof. exact @split_partition. Qed.
 Print Assumptions C09_split_partition.
 
-(* With the skip flags: when split() succeeds, the parts hold exactly the
-   events other than the skipped all-zero boundary images, in order. *)
+(* With the skip flags: the parts hold exactly the events other than the
+   skipped all-zero boundary images, in order, none more than k. *)
 Theorem C09_split_with_boundary_skipping :
-  forall (A : Type) (empty_img : A -> bool) (l : list A) (k : Z)
-         (initial final : bool) (parts : list (list A)),
+  forall (A : Type) (empty_first empty_last : A -> bool) (l : list A) (k : Z)
+         (initial final : bool),
     0 < k ->
-    split empty_img l k initial final = Some parts ->
-    concat parts
-    = slice l (b2z (initial && first_empty empty_img l))
-            (Z.of_nat (length l) - b2z (final && last_empty empty_img l))
-    /\ Forall (fun p => 0 < Z.of_nat (length p) <= k) parts.
+    concat (split empty_first empty_last l k initial final)
+    = slice l (b2z (initial && first_empty empty_first l))
+            (Z.of_nat (length l) - b2z (final && last_empty empty_last l))
+    /\ Forall (fun p => Z.of_nat (length p) <= k)
+              (split empty_first empty_last l k initial final).
 Proof. exact @split_ok. Qed.
 Print Assumptions C09_split_with_boundary_skipping.
 
-(* split() succeeds on every non-empty measurement where no boundary event is
-   skipped ... *)
+(* No part is empty when no boundary event is skipped ... *)
 Theorem C09_split_total_partial :
-  forall (A : Type) (empty_img : A -> bool) (l : list A) (k : Z)
+  forall (A : Type) (empty_first empty_last : A -> bool) (l : list A) (k : Z)
          (initial final : bool),
     0 < k -> l <> [] ->
-    initial && first_empty empty_img l = false ->
-    final && last_empty empty_img l = false ->
-    exists parts, split empty_img l k initial final = Some parts
-                  /\ concat parts = l.
+    initial && first_empty empty_first l = false ->
+    final && last_empty empty_last l = false ->
+    has_empty_part (split empty_first empty_last l k initial final) = false
+    /\ concat (split empty_first empty_last l k initial final) = l.
 Proof. exact @split_total_partial. Qed.
 Print Assumptions C09_split_total_partial.
 
 (* ... but not in general: finding C09-split-empty-part (a part that only
-   holds a skipped boundary event makes the export raise ValueError). *)
+   holds a skipped boundary event becomes a file without events, which join
+   cannot process). *)
 Theorem C09_split_total_refuted :
   exists (l : list (Z * bool)) (k : Z),
-    0 < k /\ l <> [] /\ split snd l k true true = None.
+    0 < k /\ l <> [] /\ has_empty_part (split snd snd l k true true) = true.
 Proof. exact split_total_refuted. Qed.
 Print Assumptions C09_split_total_refuted.
+
+(* What "empty boundary image" means (cli/common.py:skip_empty_image_events):
+   the first event is dropped iff all coordinates of its contour are 0 or all
+   pixels of its image are 0; the last one iff all pixels of its image are 0. *)
+Theorem C09_split_first_empty_spec :
+  forall e : sev,
+    sev_first_empty e = true <->
+    (exists c, se_cnt e = Some c /\ forall x, In x c -> x = 0)
+    \/ (exists p, se_img e = Some p /\ forall x, In x p -> x = 0).
+Proof. exact sev_first_empty_spec. Qed.
+Print Assumptions C09_split_first_empty_spec.
+
+Theorem C09_split_last_empty_spec :
+  forall e : sev,
+    sev_last_empty e = true <->
+    exists p, se_img e = Some p /\ forall x, In x p -> x = 0.
+Proof. exact sev_last_empty_spec. Qed.
+Print Assumptions C09_split_last_empty_spec.
+
+(* A measurement whose boundary events are not empty in that sense (one
+   non-zero pixel / coordinate suffices) is split without loss under any
+   flags. *)
+Theorem C09_split_events_lossless :
+  forall (l : list sev) (k : Z) (initial final : bool),
+    0 < k -> l <> [] ->
+    sev_first_empty (hd (mk_sev 0 None None) l) = false ->
+    sev_last_empty (last l (mk_sev 0 None None)) = false ->
+    has_empty_part (split_events l k initial final) = false
+    /\ concat (split_events l k initial final) = l.
+Proof. exact split_events_lossless. Qed.
+Print Assumptions C09_split_events_lossless.
 
 (* ---- join: order ------------------------------------------------------------ *)
 
@@ -149,15 +181,52 @@ Theorem C09_join_columns :
 Proof. exact join_columns. Qed.
 Print Assumptions C09_join_columns.
 
-(* The fixed join never fails on well-formed inputs: no KeyError (every
-   exported feature is available in every input), no OverflowError (offsets
-   are never negative because the order is chronological). *)
+(* join never fails on two or more well-formed inputs (date/time strings
+   that strptime/float accept included): no KeyError (every exported feature
+   is available in every input), no OverflowError (offsets are never negative
+   because the order is chronological), no ValueError. *)
 Theorem C09_join_total :
   forall inputs : list meas,
-    inputs <> [] -> Forall wf_meas inputs ->
+    (2 <= length inputs)%nat -> Forall wf_meas inputs ->
     exists j, join_fixed inputs = Ok j.
 Proof. exact join_fixed_total. Qed.
 Print Assumptions C09_join_total.
+
+(* It raises ValueError exactly for fewer than two inputs or a malformed
+   date/time (nothing is written in that case). *)
+Theorem C09_join_rejects_malformed :
+  forall inputs : list meas,
+    (length inputs < 2)%nat \/ (exists m, In m inputs /\ wf_datetime m = false) ->
+    join_fixed inputs = Err EValue.
+Proof. exact join_rejects. Qed.
+Print Assumptions C09_join_rejects_malformed.
+
+Theorem C09_join_value_error_only_if :
+  forall inputs : list meas,
+    join_fixed inputs = Err EValue ->
+    (length inputs < 2)%nat \/ (exists m, In m inputs /\ wf_datetime m = false).
+Proof. exact join_value_error_only_if. Qed.
+Print Assumptions C09_join_value_error_only_if.
+
+(* "restricted to the features available in every input": every exported
+   feature is stored or computable in every input, the earliest included. *)
+Theorem C09_join_features_available_everywhere :
+  forall (inputs : list meas) (j : joined),
+    join_fixed inputs = Ok j -> Forall wf_meas inputs ->
+    forall f m, In f (j_feats j) -> In m inputs -> In f (m_avail m).
+Proof. exact join_features_available_everywhere. Qed.
+Print Assumptions C09_join_features_available_everywhere.
+
+(* index_online: the inputs' columns in processing order, every later one
+   shifted by (last value written so far) + 1. *)
+Theorem C09_join_index_online_column :
+  forall (inputs : list meas) (j : joined) (f : Z),
+    join_fixed inputs = Ok j -> In f (j_feats j) -> kind f = 3 ->
+    exists m0 rest,
+      map snd (sorted_gen leb_num inputs) = m0 :: rest
+      /\ lookup_col f (j_cols j) = Some (spec_ido f (m0 :: rest)).
+Proof. exact join_index_online_column. Qed.
+Print Assumptions C09_join_index_online_column.
 
 (* Acquisition times never decrease along the processing order: the time and
    frame offsets are never negative and never decrease from one input to the
@@ -224,46 +293,49 @@ Theorem C09_join_logs_retained :
 Proof. exact join_logs_retained. Qed.
 Print Assumptions C09_join_logs_retained.
 
+(* ---- trace channels ---------------------------------------------------------------- *)
+
+(* When all inputs record the same trace channels, every channel of the joined
+   file holds every event (rows per channel = sum of the inputs' events) ... *)
+Theorem C09_join_trace_consistent_partial :
+  forall (ks ns : list Z),
+    NoDup ks -> ns <> [] ->
+    trace_lengths (map (fun n => (n, ks)) ns)
+    = map (fun k => (k, fold_right Z.add 0 ns)) ks.
+Proof. exact trace_consistent_partial. Qed.
+Print Assumptions C09_join_trace_consistent_partial.
+
+(* ... not in general: finding C09-join-trace-channels-differ (a channel that
+   is not in every input receives the events of some inputs only, the trace
+   datasets of the output have different lengths). *)
+Theorem C09_join_trace_consistent_refuted :
+  exists inputs, tl_consistent inputs = false
+                 /\ trace_lengths inputs = [(1, 5); (2, 3)].
+Proof. exact trace_consistent_refuted. Qed.
+Print Assumptions C09_join_trace_consistent_refuted.
+
 (* ---- join of split ---------------------------------------------------------------- *)
 
-(* Joining the parts of a split (any N > 0, any k > 0), given in order,
-   succeeds, exports the innate features and reproduces every column other
-   than index_online (index: 1..N). *)
+(* Joining the parts of a split, given in order (any N, any 0 < k < N, i.e. at
+   least two parts; s0/s1: the first/last event was skipped as an empty
+   boundary image): succeeds, exports the innate features, and every column is
+   the original one without the skipped boundary events; index is 1..N',
+   index_online follows its block rule over the same windows. *)
 Theorem C09_join_of_split :
-  forall (m : meas) (n k : Z),
-    0 < k -> 0 < n -> wf_meas m ->
+  forall (m : meas) (n k : Z) (s0 s1 : bool),
+    0 < k -> k < n -> wf_meas m ->
     (forall f c, lookup_col f (m_cols m) = Some c -> Z.of_nat (length c) = n) ->
     exists j,
-      join_fixed (split_meas m n k) = Ok j
+      join_fixed (split_meas m n k s0 s1) = Ok j
       /\ j_feats j = py_sorted Z.leb (m_innate m)
-      /\ forall f, In f (m_innate m) ->
-           (kind f <> 3 -> kind f <> 4 ->
-            lookup_col f (j_cols j) = lookup_col f (m_cols m))
+      /\ forall f c, In f (m_innate m) -> lookup_col f (m_cols m) = Some c ->
+           let kept := slice c (b2z s0) (n - b2z s1) in
+           (kind f <> 3 -> kind f <> 4 -> lookup_col f (j_cols j) = Some kept)
            /\ (kind f = 4 ->
                lookup_col f (j_cols j)
-               = Some (map (fun i => 1 + Z.of_nat i) (seq 0 (Z.to_nat n)))).
+               = Some (map (fun i => 1 + Z.of_nat i) (seq 0 (length kept))))
+           /\ (kind f = 3 ->
+               lookup_col f (j_cols j)
+               = Some (spec_ido_blocks (split_parts c k s0 s1))).
 Proof. exact join_of_split. Qed.
 Print Assumptions C09_join_of_split.
-
-(* ---- the code before the fix ----------------------------------------------------- *)
-
-(* two neighbouring features missing in a later input: KeyError *)
-Theorem C09_join_orig_prune_refuted :
-  exists ms, Forall wf_meas ms /\ join_orig ms = Err EKey
-             /\ exists j, join_fixed ms = Ok j /\ j_feats j = [10; 40].
-Proof. exact join_orig_prune_refuted. Qed.
-Print Assumptions C09_join_orig_prune_refuted.
-
-(* "12:00:00.50" sorts before "12:00:00": negative offset, OverflowError *)
-Theorem C09_join_orig_sort_refuted :
-  exists ms, Forall wf_meas ms /\ join_orig ms = Err EOverflow
-             /\ exists j, join_fixed ms = Ok j /\ j_order j = [0; 1].
-Proof. exact join_orig_sort_refuted. Qed.
-Print Assumptions C09_join_orig_sort_refuted.
-
-(* run index "10" sorts before "9" *)
-Theorem C09_join_orig_run_order_refuted :
-  exists ms j, join_orig ms = Ok j /\ j_order j = [1; 0]
-               /\ exists j', join_fixed ms = Ok j' /\ j_order j' = [0; 1].
-Proof. exact join_orig_run_order_refuted. Qed.
-Print Assumptions C09_join_orig_run_order_refuted.
